@@ -850,11 +850,6 @@ impl<'a> Tr<'a> {
                     Expr::If(i) if semi.is_some() || !is_last || i.else_branch.is_none() => self.if_stmt(i, rest, k),
                     Expr::ForLoop(f) => {
                         // only literal ranges: unrolled
-                        let var = match &*f.pat {
-                            Pat::Ident(i) => i.ident.to_string(),
-                            Pat::Wild(_) => "_".to_string(),
-                            _ => return Err("`for` pattern unsupported".into()),
-                        };
                         let literal = match as_range(&f.expr) {
                             None => false,
                             Some((lo, hi, _)) => {
@@ -864,6 +859,11 @@ impl<'a> Tr<'a> {
                         if !literal {
                             return self.for_fold(f, rest, k);
                         }
+                        let var = match &*f.pat {
+                            Pat::Ident(i) => i.ident.to_string(),
+                            Pat::Wild(_) => "_".to_string(),
+                            _ => return Err("`for` pattern unsupported".into()),
+                        };
                         let (lo, hi, incl) = as_range(&f.expr).ok_or_else(|| format!("`for` over `{}` unsupported (only literal ranges are unrolled)", tok(&*f.expr)))?;
                         let lo = int_lit(lo).or_else(|| self.cfg.int_consts.get(&tok(lo)).copied()).ok_or("`for` range bound is not an integer literal")?;
                         let hi = int_lit(hi).or_else(|| self.cfg.int_consts.get(&tok(hi)).copied()).ok_or("`for` range bound is not an integer literal")?;
